@@ -284,6 +284,11 @@ def validate(work, files, module, props, constants=None, timeout=1800, maxviol=4
 
     def one(k):
         path, cmap = chunks[k]
+        with open(path) as f:
+            nlines = sum(1 for _ in f)
+        if nlines <= 1 and not independent:
+            # a single (reset) line: no step to judge - the trace specification would stop at its initial state
+            return k, {"lines": nlines, "viol": [], "drift": [], "cnt": {}}, 0.0
         cfg = "val%d.cfg" % k
         consts = {"TraceFile": '"%s"' % os.path.basename(path), "Props": tla_set(props), "MaxViol": str(maxviol)}
         consts.update(constants or {})
@@ -319,6 +324,33 @@ def read_line(path, n):
         for i, line in enumerate(f, 1):
             if i == n:
                 return json.loads(line)
+    return None
+
+
+def read_many(path, nums):
+    """the JSON lines with the given 1-based numbers, in one pass"""
+    res, last = {}, max(nums) if nums else 0
+    with open(path) as f:
+        for i, line in enumerate(f, 1):
+            if i in nums:
+                res[i] = json.loads(line)
+            if i >= last:
+                break
+    return res
+
+
+def find_script(path, run):
+    """the script of run `run` in an NDJSON script file (only candidate lines are parsed)"""
+    needles = ('"run":%d' % run, '"run": %d' % run)
+    with open(path) as f:
+        for raw in f:
+            if needles[0] in raw or needles[1] in raw:
+                try:
+                    s = json.loads(raw)
+                except ValueError:
+                    continue
+                if s.get("run") == run:
+                    return s
     return None
 
 
@@ -387,12 +419,24 @@ def tlaps_proof(work, module):
     # the back-end provers run under per-obligation timeouts: on a loaded machine an obligation can time out, so the
     # timeouts are stretched, and a second pass (which only re-tries what failed: proved obligations are fingerprinted) stretches them further
     for stretch in ("3", "12"):
+        p = None
         try:
-            p = subprocess.run(["tlapm", "--threads", str(max(2, NCPU // 2)), "--stretch", stretch, module], cwd=d, stdout=subprocess.PIPE,
-                               stderr=subprocess.STDOUT, text=True, timeout=1800)
-            out = p.stdout
+            # own process group: the back-end provers (z3, zenon, isabelle) are grandchildren and must not outlive the run
+            p = subprocess.Popen(["tlapm", "--threads", str(max(2, NCPU // 2)), "--stretch", stretch, module], cwd=d, stdout=subprocess.PIPE,
+                                 stderr=subprocess.STDOUT, text=True, start_new_session=True)
+            out, _ = p.communicate(timeout=900)
         except Exception as e:  # missing tool, timeout
             out = "tlapm did not run: %s" % e
+        finally:
+            if p is not None:
+                try:
+                    os.killpg(p.pid, 9)
+                except OSError:
+                    pass
+                try:
+                    p.wait(timeout=10)
+                except Exception:
+                    pass
         m = re.search(r"All (\d+) obligations? proved", out)
         if m:
             break
